@@ -4,7 +4,7 @@
 //! Code: mahf::components::recombination::{UniformCrossover,NPointCrossover,ArithmeticCrossover,CycleCrossover}::recombine (called directly), recombination (driver), SwapMutation::from_params, DEMutation::{from_params,execute}
 //! Out: solutions longer than 5 elements; the distribution of mutation noise; Normal/Uniform/BitFlip/Scramble/Inversion/Insertion/Translocation mutation *components* through a State with Vec encodings (class S, thorough tier only, best effort)
 //! Reclimit: mahf::state::(registry::)?StateRegistry::<.*>::find(_mut)?::<.*>=2
-//! Assume: helper inputs satisfy exactly the documented `requires` contracts (indices in bounds, range.start <= range.end < len, index + chunk <= len); permutation-ness of cycle-crossover parents
+//! Assume: helper inputs satisfy exactly the documented `requires` contracts (indices in bounds, range.start <= range.end <= len, index + chunk <= len); permutation-ness of cycle-crossover parents
 use mahf::components::mutation::functional as mf;
 use mahf::components::mutation::{de::DEMutation, SwapMutation};
 use mahf::components::recombination::functional as rf;
@@ -163,11 +163,11 @@ fn translocate<const N: usize>(start: usize, chunk: usize, index: usize) {
     }
 }
 fn translocate_all4() {
-    // every (start, chunk, index) with start+chunk < 4, index < 4, index+chunk <= 4
+    // every (start, chunk, index) with start < 4, start+chunk <= 4, index < 4, index+chunk <= 4
     let mut start = 0;
     while start < 4 {
         let mut chunk = 0;
-        while start + chunk < 4 {
+        while start + chunk <= 4 {
             let mut index = 0;
             while index < 4 && index + chunk <= 4 {
                 translocate::<4>(start, chunk, index);
@@ -178,7 +178,7 @@ fn translocate_all4() {
         start += 1;
     }
 }
-// @h tier=quick bound="length 4: all 26 valid (start, slice length, index) shapes, all contents" unwind=6 cost=6 timeout=900 mem=10
+// @h tier=quick bound="length 4: all valid (start, slice length, index) shapes incl. slices that end at the last element, all contents" unwind=6 cost=6 timeout=900 mem=10
 h!(h_c13_translocate_4_all, 6, translocate_all4());
 // @h tier=quick bound="length 5, slice 1..3 moved right into itself (start 1, len 2, index 2), all contents" unwind=7 cost=2
 h!(h_c13_translocate_5_s1_c2_i2, 7, translocate::<5>(1, 2, 2));
@@ -186,6 +186,10 @@ h!(h_c13_translocate_5_s1_c2_i2, 7, translocate::<5>(1, 2, 2));
 h!(h_c13_translocate_5_s0_c3_i1, 7, translocate::<5>(0, 3, 1));
 // @h tier=quick bound="length 5, slice (start 2, len 2, index 0), all contents" unwind=7 cost=2
 h!(h_c13_translocate_5_s2_c2_i0, 7, translocate::<5>(2, 2, 0));
+// @h tier=quick bound="length 5, the last element moved to the front (start 4, len 1, index 0)" unwind=7 cost=2
+h!(h_c13_translocate_5_last_to_front, 7, translocate::<5>(4, 1, 0));
+// @h tier=quick bound="length 5, tail slice (start 3, len 2, index 1)" unwind=7 cost=2
+h!(h_c13_translocate_5_tail, 7, translocate::<5>(3, 2, 1));
 
 // ---- crossovers --------------------------------------------------------------------------------------
 
@@ -528,7 +532,7 @@ fn still_permutation(s: &State<'static, PermP>) {
 fn translocate_contract_model<D: 'static>(permutation: &mut [D], range: std::ops::Range<usize>, index: usize) {
     assert!(index < permutation.len(), "translocate_slice requires index < len");
     assert!(range.start < permutation.len(), "translocate_slice requires range.start < len");
-    assert!(range.end < permutation.len(), "translocate_slice requires range.end < len");
+    assert!(range.end <= permutation.len(), "translocate_slice requires range.end <= len");
     assert!(range.start <= range.end && index + (range.end - range.start) <= permutation.len(), "translocate_slice: moving the slice must stay in bounds");
 }
 macro_rules! perm_mut {
@@ -547,9 +551,44 @@ macro_rules! perm_mut {
         }
     };
 }
-// @h tier=quick bound="InsertionMutation, 1 individual, 3 positions, all draw sequences within 4 draws; translocate_slice replaced by its contract" unwind=6 cost=9 mem=44 timeout=1500
+// @h tier=thorough bound="InsertionMutation, 1 individual, 3 positions, all draw sequences within 4 draws; translocate_slice replaced by its contract" unwind=6 cost=9 mem=44 timeout=1500
 perm_mut!(h_c13_mut_insertion, 4, 6, mahf::components::mutation::common::InsertionMutation::from_params());
-// @h tier=quick bound="InversionMutation, 1 individual, 3 positions, all draw sequences within 4 draws" unwind=6 cost=9 mem=44 timeout=1500
+// @h tier=thorough bound="InversionMutation, 1 individual, 3 positions, all draw sequences within 4 draws" unwind=6 cost=9 mem=44 timeout=1500
 perm_mut!(h_c13_mut_inversion, 4, 6, mahf::components::mutation::common::InversionMutation::from_params());
-// @h tier=quick bound="TranslocationMutation, 1 individual, 3 positions, all draw sequences within 5 draws; translocate_slice replaced by its contract" unwind=6 cost=9 mem=44 timeout=1800
+// @h tier=thorough bound="TranslocationMutation, 1 individual, 3 positions, all draw sequences within 5 draws; translocate_slice replaced by its contract" unwind=6 cost=9 mem=44 timeout=1800
 perm_mut!(h_c13_mut_translocation, 5, 6, mahf::components::mutation::common::TranslocationMutation::from_params());
+
+// Two-position variants (smaller formulas: the three-position harnesses above run out of 44 GB).
+fn perm_state2(budget: u32) -> State<'static, PermP> {
+    let a = sym::upto(1) as usize;
+    let mut pops = Populations::<PermP>::new();
+    pops.push(vec![Individual::new(vec![a, 1 - a], obj(sym::legal_f64()))]);
+    let mut s: State<PermP> = State::new();
+    s.insert(sym_random(budget));
+    s.insert(pops);
+    s
+}
+macro_rules! perm_mut2 {
+    ($name:ident, $budget:expr, $uw:expr, $c:expr) => {
+        #[cfg_attr(kani, kani::proof)]
+        #[cfg_attr(kani, kani::unwind($uw))]
+        #[cfg_attr(kani, kani::stub(mahf::components::mutation::functional::translocate_slice, translocate_contract_model))]
+        pub fn $name() {
+            let mut s = perm_state2($budget);
+            let c = $c;
+            let r = Component::<PermP>::execute(&c, &PermP(2), &mut s);
+            assert!(r.is_ok(), "a permutation mutation neither errs nor panics on a valid population");
+            {
+                let p = s.populations();
+                let v = p.current()[0].solution();
+                assert!(v.len() == 2 && v[0] < 2 && v[1] < 2 && v[0] != v[1], "a permutation operator returns a permutation of the same elements");
+            }
+            vcover!(true, "reached");
+            std::mem::forget(s);
+        }
+    };
+}
+// @h tier=thorough bound="InversionMutation, 1 individual, 2 positions, all draw sequences within 3 draws" unwind=4 cost=8 mem=30 timeout=1200
+perm_mut2!(h_c13_mut_inversion_d2, 3, 4, mahf::components::mutation::common::InversionMutation::from_params());
+// @h tier=thorough bound="TranslocationMutation, 1 individual, 2 positions, all draw sequences within 4 draws" unwind=4 cost=8 mem=30 timeout=1200
+perm_mut2!(h_c13_mut_translocation_d2, 4, 4, mahf::components::mutation::common::TranslocationMutation::from_params());
